@@ -1053,9 +1053,38 @@ def gen_controller(repo):
     for need in ORDER + ["send_message", "send_message_expect_response"]:
         if need not in methods:
             raise TranslateError("sign.rs: method %s not found" % need)
-    extra = set(methods) - set(ORDER) - Translator.PRIMS
-    if extra:
-        raise TranslateError("sign.rs: methods the translator does not know: %s" % sorted(extra))
+    # helper methods the pinned source does not have are translated like the others, in call order
+    extra = sorted(set(methods) - set(ORDER) - Translator.PRIMS)
+
+    def callees(name):
+        acc = set()
+
+        def walk(e):
+            if isinstance(e, tuple):
+                if e and e[0] == "method" and e[1] == ("path", ["self"]):
+                    acc.add(e[2])
+                for x in e:
+                    walk(x)
+            elif isinstance(e, list):
+                for x in e:
+                    walk(x)
+        walk(methods[name][2])
+        return acc - Translator.PRIMS
+    order, seen = [], set()
+
+    def visit(n, stack=()):
+        if n in seen:
+            return
+        if n in stack:
+            raise TranslateError("sign.rs: recursive methods are outside the translated subset")
+        if n not in methods:
+            raise TranslateError("sign.rs: call of unknown method %s" % n)
+        for c in sorted(callees(n)):
+            visit(c, stack + (n,))
+        seen.add(n)
+        order.append(n)
+    for n in ORDER + extra:
+        visit(n)
     # the three primitives must be what the translation assumes they are
     prim_send = re.search(r"fn\s+send_message\s*\(&self,\s*message:\s*Message<'_>\)\s*->\s*Result<Option<Message<'_>>,\s*SignError>\s*\{(.*?)\n    \}", src, re.S)
     if not prim_send or squash(prim_send.group(1)) != "letmutbus=self.bus.borrow_mut();Ok(bus.process_message(message)?)":
@@ -1069,7 +1098,7 @@ def gen_controller(repo):
     tr = Translator(methods)
     tr.uses_type = tr.compute_uses_type()
     defs = []
-    for name in ORDER:
+    for name in order:
         n_aux = len(tr.aux)
         d = tr.method(name)
         defs += tr.aux[n_aux:]
